@@ -7,10 +7,13 @@ LEVEL = "model_checking"
 
 def run(ctx: Ctx) -> None:
     agg = sweep(ctx, {"C05"})
+    from mc import computed_sweep
+    comp = computed_sweep.sweep(ctx, {"C05"})
     from mc import gen_sweep
     gen = gen_sweep.sweep(ctx, {"C05"})
     ctx.coverage.update(
-        states=agg["words"] + gen["distinct_trees"], transitions=agg["words"] + gen["runs"],
+        computed_repetition_sweep=comp,
+        states=agg["words"] + comp["words"] + gen["distinct_trees"], transitions=agg["words"] + comp["words"] + gen["runs"],
         traces_validated_against_impl=agg["pref_members"] + gen["roundtrips"],
         samples=agg["samples"] + gen["samples"], exhaustive=agg["skipped_words"] == 0 and gen["capped_pairs"] == 0,
         generator_roundtrip={k: v for k, v in gen.items() if k != "samples"},
